@@ -319,3 +319,4 @@ class FlatPackH(Harness):
 
 
 FlatPackH.REWARD_VARIANTS = FlatPackH._variants()
+FlatPackH.REF_REWARD_VARIANTS = True
